@@ -7,7 +7,9 @@
 package main
 
 import (
+	"bufio"
 	"bytes"
+	"crypto/aes"
 	"compress/zlib"
 	"errors"
 	"fmt"
@@ -32,9 +34,13 @@ func capOf(sb bool) int {
 	return 8 << 20
 }
 
+// eofReader hands the stream out in planned chunk sizes (then the rest in one piece) and notes when the
+// decoder asked for more than there is.
 type eofReader struct {
 	b      []byte
 	pos    int
+	sizes  []int
+	k      int
 	hitEOF bool
 }
 
@@ -43,9 +49,70 @@ func (r *eofReader) Read(p []byte) (int, error) {
 		r.hitEOF = true
 		return 0, io.EOF
 	}
-	n := copy(p, r.b[r.pos:])
+	n := len(r.b) - r.pos
+	if r.k < len(r.sizes) {
+		n = min(n, r.sizes[r.k])
+	}
+	n = min(n, len(p))
+	if r.k < len(r.sizes) {
+		r.sizes[r.k] -= n
+		if r.sizes[r.k] <= 0 {
+			r.k++
+		}
+	}
+	copy(p, r.b[r.pos:r.pos+n])
 	r.pos += n
 	return n, nil
+}
+
+// delivery = how the stream reaches the Decoder; the outcome must not depend on it
+type delivery struct {
+	mode   string // ctor | setreader | setreader+bufio+cfb8
+	chunks string // whole | bytewise | small | mss | mixed
+	sizes  []int
+	secret []byte
+}
+
+func planDelivery(n int, rng *lib.Rng) delivery {
+	d := delivery{mode: rng.PickS("ctor", "setreader", "setreader", "setreader+bufio+cfb8"),
+		chunks: rng.PickS("whole", "bytewise", "small", "mss", "mixed", "mixed")}
+	if d.mode == "setreader+bufio+cfb8" {
+		d.secret = rng.Bytes(16)
+	}
+	for t := 0; t < n && d.chunks != "whole"; {
+		var k int
+		switch d.chunks {
+		case "bytewise":
+			k = 1
+		case "small":
+			k = rng.Range(1, 7)
+		case "mss":
+			k = 1448
+		default:
+			k = rng.Pick(1, rng.Range(2, 16), rng.Range(17, 300), 1448, rng.Range(1, n+1))
+		}
+		d.sizes = append(d.sizes, k)
+		t += k
+	}
+	return d
+}
+
+// CFB8 encryption with crypto/aes (key = iv = secret), written here independently of gate's cipher code:
+// the harness plays the peer that encrypts the hostile stream
+func cfb8Encrypt(secret, plain []byte) []byte {
+	blk, err := aes.NewCipher(secret)
+	if err != nil {
+		panic(err)
+	}
+	reg := append([]byte{}, secret...)
+	out := make([]byte, len(plain))
+	ks := make([]byte, 16)
+	for i, x := range plain {
+		blk.Encrypt(ks, reg)
+		out[i] = x ^ ks[0]
+		reg = append(reg[1:], out[i])
+	}
+	return out
 }
 
 type observed struct {
@@ -55,13 +122,29 @@ type observed struct {
 	maxAlloc uint64
 }
 
-func runReal(stream []byte, thr int, sb bool) (o observed) {
-	rd := &eofReader{b: stream}
+func runReal(stream []byte, thr int, sb bool, dl delivery) (o observed) {
 	dirn := proto.ClientBound
 	if sb {
 		dirn = proto.ServerBound
 	}
-	d := codec.NewDecoder(rd, dirn, logr.Discard())
+	rd := &eofReader{b: stream, sizes: append([]int{}, dl.sizes...)}
+	var d *codec.Decoder
+	switch dl.mode {
+	case "ctor":
+		d = codec.NewDecoder(rd, dirn, logr.Discard())
+	case "setreader":
+		d = codec.NewDecoder(bytes.NewReader(nil), dirn, logr.Discard())
+		d.SetReader(rd)
+	default: // the production wiring of netmc reader.EnableEncryption: bufio, then the CFB8 decrypt reader, via SetReader
+		rd.b = cfb8Encrypt(dl.secret, stream)
+		buf := bufio.NewReader(rd)
+		d = codec.NewDecoder(buf, dirn, logr.Discard())
+		dr, err := codec.NewDecryptReader(buf, dl.secret)
+		if err != nil {
+			panic(err)
+		}
+		d.SetReader(dr)
+	}
 	d.SetState(state.NewRegistry(states.HandshakeState)) // empty registry: payloads come back undecoded
 	d.SetCompressionThreshold(thr)
 	defer func() {
@@ -271,11 +354,14 @@ func main() {
 		"bit-flipped, Adler-32 corrupted, re-claimed larger/smaller (incl. multiples of 32768 where compress/flate flushes before the trailer); runs of 1..13 empty frames; " +
 		"streams of 2..6 valid compressed frames with equal / decreasing / increasing / mixed sizes (small, up to 64 KiB, above 64 KiB); strict prefixes; uncompressed bodies of t-1, t, t+1 bytes; bodies inflating to cap, cap+1 constant bytes (written as `rep 1 n`); payloads without a packet id; random bytes. " +
 		"distinct = distinct case term; non-trivial = not the random-bytes class, or the real decoder returned at least one payload. " +
-		"Every stream is decoded by the real decoder until the first failing Decode; the payload slices the decoder returned are kept WITHOUT copying and emitted only after the whole stream was decoded; heap growth per Decode (runtime.MemStats.TotalAlloc) is recorded as supporting evidence."
+		"Delivery is varied per case and must not matter: reader given to NewDecoder, or installed with SetReader afterwards, or SetReader with the production wiring (bufio + AES/CFB8 decrypt reader over the stream encrypted by the harness with crypto/aes); the reader hands the stream out whole, bytewise, in 1..7-byte pieces, in 1448-byte segments or in mixed PRNG-sized chunks. Every stream is decoded by the real decoder until the first failing Decode; the payload slices the decoder returned are kept WITHOUT copying and emitted only after the whole stream was decoded; heap growth per Decode (runtime.MemStats.TotalAlloc) is recorded as supporting evidence."
 
 	var worstAlloc uint64
+	drng := rng.Fork() // delivery choices; emit is always called in the same order
 	emit := func(idx int, thr int, sb bool, stream []byte, kind string, tags ...string) {
-		o := runReal(stream, thr, sb)
+		dl := planDelivery(len(stream), drng)
+		o := runReal(stream, thr, sb, dl)
+		tags = append(tags, "delivery="+dl.mode, "chunks="+dl.chunks)
 		if o.maxAlloc > worstAlloc {
 			worstAlloc = o.maxAlloc
 		}
@@ -330,6 +416,7 @@ func main() {
 			sizes[i] = len(p)
 		}
 		out.Add(term, map[string]any{"kind": kind, "thr": thr, "serverbound": sb, "stream_hex": fmt.Sprintf("%x", trunc(stream)), "stream_len": len(stream),
+			"delivery": dl.mode, "chunking": dl.chunks, "chunk_sizes": truncInts(dl.sizes), "secret_hex": fmt.Sprintf("%x", dl.secret),
 			"observed_payload_sizes": sizes, "observed_end": o.term}, kind != "random" || len(o.payloads) > 0, tags...)
 	}
 
@@ -486,6 +573,13 @@ func main() {
 	out.Extra("heap_note", "runtime.MemStats.TotalAlloc growth around each Decode call (includes zlib reader state); supporting evidence for the allocation bound, the bound itself is theorem C02_alloc_bound")
 	out.Extra("large_payload_note", "payloads above 4 KiB in this check are constant byte strings written as `rep b n` and ARE evaluated in Coq (lists of up to 8 Mi elements)")
 	out.Finish()
+}
+
+func truncInts(x []int) []int {
+	if len(x) > 64 {
+		return x[:64]
+	}
+	return x
 }
 
 func trunc(b []byte) []byte {
